@@ -120,6 +120,10 @@ def cases(tier, seed):
                             "addr": list(ADDRS[(size + w + seed) % len(ADDRS)])})
     for size in (2, 3, 4):
         for first in range(1, size):            # (a first piece of the full size is a complete download of its own)
+            if size < 4:
+                # more than the announced size, though an expedited frame could carry it
+                out.append({"dir": "excess", "size": size, "first": first, "total": 4, "seed": seed,
+                            "addr": list(ADDRS[(size + first + seed + 1) % len(ADDRS)])})
             out.append({"dir": "excess", "size": size, "first": first, "seed": seed, "addr": list(ADDRS[(size + first + seed) % len(ADDRS)])})
     # empty write() calls between the chunks
     for n in range(0, 17):
@@ -585,7 +589,7 @@ def run_excess(case, st):
     of it reaches the server - neither at once nor when the stream is closed."""
     size, first, seed = case["size"], case["first"], case.get("seed", 0)
     idx, sub = case["addr"]
-    data = simenv.pattern(5, seed + 4)
+    data = simenv.pattern(case.get("total", 5), seed + 4)
     node, srv, bus = make()
     srv.expected_mux = bytes([idx & 0xFF, idx >> 8, sub])
     srv.store[(idx, sub)] = b"GOOD"
@@ -600,7 +604,8 @@ def run_excess(case, st):
         err = e
     got = srv.store.get((idx, sub))
     if err is None:
-        st.violation("C01:excess:accepted", case, "the write of a 5th byte is refused", f"returned normally, stored={got.hex()}")
+        st.violation("C01:excess:accepted", case, "the write beyond the announced size (or a 5th byte) is refused",
+                     f"returned normally, stored={got.hex()} frames={srv.frames}")
     elif got != b"GOOD":
         st.violation("C01:excess:refused-but-stored", case, "value at the server unchanged (GOOD)",
                      f"{type(err).__name__}; stored={got.hex()} frames={srv.frames}")
